@@ -31,6 +31,7 @@ import (
 	"helm.sh/helm/v4/pkg/ignore"
 	"helm.sh/helm/v4/pkg/lint"
 	"helm.sh/helm/v4/pkg/plugin"
+	"helm.sh/helm/v4/pkg/repo"
 )
 
 type DiskFault struct {
@@ -46,6 +47,7 @@ type DiskSpec struct {
 	Files  map[string]string `json:"files"`           // intact chart directory (path -> content)
 	Alt    map[string]string `json:"alt,omitempty"`   // an older version of some files (the other half of a torn write)
 	Plugin string            `json:"plugin,omitempty"` // intact plugin.yaml ("" = no plugin directory)
+	Home   map[string]string `json:"home,omitempty"`   // files of the helm home: repositories.yaml, index.yaml (cached repository index)
 	Faults []DiskFault       `json:"faults"`
 }
 
@@ -163,6 +165,10 @@ func ExecuteC20d(t *testing.T, plan *Plan) *RunResult {
 	for n, c := range ds.Files {
 		files[n] = []byte(c)
 	}
+	home := map[string][]byte{}
+	for n, c := range ds.Home {
+		home[n] = []byte(c)
+	}
 	pluginYAML := []byte(ds.Plugin)
 	var streamFaults []DiskFault
 	var damage []string
@@ -186,6 +192,23 @@ func ExecuteC20d(t *testing.T, plan *Plan) *RunResult {
 				res.FaultsFired["disk-"+f.Kind]++
 				damage = append(damage, "plugin.yaml:"+f.Kind)
 			}
+			continue
+		}
+		if strings.HasPrefix(f.File, "home:") {
+			name := strings.TrimPrefix(f.File, "home:")
+			cur, ok := home[name]
+			if !ok {
+				continue
+			}
+			if f.Kind == "missing" {
+				delete(home, name)
+			} else if out, ok := applyDiskFault(cur, []byte(ds.Alt[f.File]), f); ok {
+				home[name] = out
+			} else {
+				continue
+			}
+			res.FaultsFired["disk-"+f.Kind]++
+			damage = append(damage, name+":"+f.Kind)
 			continue
 		}
 		cur, ok := files[f.File]
@@ -366,6 +389,53 @@ func ExecuteC20d(t *testing.T, plan *Plan) *RunResult {
 			_, err := plugin.LoadAll(dir)
 			return err
 		})
+	}
+	if len(ds.Home) > 0 {
+		hdir := filepath.Join(dir, "home")
+		os.MkdirAll(hdir, 0o755)
+		for n, c := range home {
+			os.WriteFile(filepath.Join(hdir, n), c, 0o644)
+		}
+		if _, ok := ds.Home["repositories.yaml"]; ok {
+			step("repo.LoadFile", true, func() error {
+				rf, err := repo.LoadFile(filepath.Join(hdir, "repositories.yaml"))
+				if err != nil {
+					if os.IsNotExist(err) || strings.Contains(err.Error(), "no such file") {
+						return nil
+					}
+					return err
+				}
+				rf.Has("stable")
+				rf.Get("stable")
+				rf.Get("other")
+				rf.Update(&repo.Entry{Name: "stable", URL: "https://example.com/new"})
+				rf.Remove("other")
+				return rf.WriteFile(filepath.Join(hdir, "repositories.out.yaml"), 0o644)
+			})
+		}
+		if _, ok := ds.Home["index.yaml"]; ok {
+			step("repo.LoadIndexFile", true, func() error {
+				idx, err := repo.LoadIndexFile(filepath.Join(hdir, "index.yaml"))
+				if err != nil {
+					if os.IsNotExist(err) || strings.Contains(err.Error(), "no such file") {
+						return nil
+					}
+					return err
+				}
+				idx.SortEntries()
+				idx.Has("demo", "1.2.3")
+				idx.Has("demo", "")
+				for _, v := range []string{"", "1.2.3", ">=1.0.0", "^1.x", "9.9.9", "not a version"} {
+					idx.Get("demo", v)
+					idx.Get("sub", v)
+					idx.Get("absent", v)
+				}
+				other := repo.NewIndexFile()
+				other.Merge(idx)
+				idx.Merge(other)
+				return idx.WriteFile(filepath.Join(hdir, "index.out.yaml"), 0o644)
+			})
+		}
 	}
 	res.Outcome = fmt.Sprintf("c20d form=%s damage=%s loaded=%v", ds.Form, cause, loaded != nil)
 	var probeKeys []string
@@ -566,6 +636,28 @@ func genC20d(g *Gen, seed, index uint64) *Plan {
 	if g.Chance(0.35) {
 		ds.Plugin = "name: demo-plugin\nversion: 0.1.0\nusage: a plugin\ndescription: |-\n  a plugin for the disk slice\nignoreFlags: false\nplatformCommand:\n- os: linux\n  arch: amd64\n  command: $HELM_PLUGIN_DIR/bin/demo\n  args:\n  - --flag\n- command: demo\nplatformHooks:\n  install:\n  - command: echo\n    args:\n    - installed\ndownloaders:\n- command: bin/dl\n  protocols:\n  - demo\n  - demos\n"
 	}
+	if g.Chance(0.4) {
+		ds.Home = map[string]string{}
+		ds.Home["repositories.yaml"] = "apiVersion: \"\"\ngenerated: \"2020-01-02T03:04:05.678901234+01:00\"\nrepositories:\n- caFile: \"\"\n  certFile: \"\"\n  insecure_skip_tls_verify: false\n  keyFile: \"\"\n  name: stable\n  pass_credentials_all: false\n  password: " + g.c20dWord() + "\n  url: https://example.com/charts\n  username: " + g.c20dWord() + "\n- name: other\n  url: https://other.example.com/\n"
+		ds.Alt["home:repositories.yaml"] = "apiVersion: \"\"\ngenerated: \"2019-01-01T00:00:00Z\"\nrepositories:\n- name: older\n  url: https://old.example.com/a/very/long/path/that/makes/this/version/of/the/file/longer/than/the/new/one/so/that/the/torn/tail/is/not/empty\n- name: second\n  url: http://second.example.com\n- name: third\n  url: http://third.example.com\n  username: u\n  password: p\n"
+		var b strings.Builder
+		b.WriteString("apiVersion: v1\nentries:\n  demo:\n")
+		for i := 0; i < 1+g.N(3); i++ {
+			fmt.Fprintf(&b, "  - apiVersion: v2\n    name: demo\n    version: 1.%d.%d\n    appVersion: \"%d\"\n    created: \"2020-01-0%dT00:00:00Z\"\n    description: demo chart\n    digest: %064d\n    urls:\n    - https://example.com/charts/demo-1.%d.0.tgz\n", 2+i, 3, i, 1+i, i, i)
+			if g.Chance(0.5) {
+				b.WriteString("    dependencies:\n    - name: sub\n      version: 0.1.0\n      repository: https://example.com/charts\n")
+			}
+			if g.Chance(0.5) {
+				b.WriteString("    maintainers:\n    - name: " + g.c20dWord() + "\n      email: a@example.com\n")
+			}
+			if g.Chance(0.3) {
+				b.WriteString("    keywords:\n    - k\n    annotations:\n      a: b\n")
+			}
+		}
+		b.WriteString("  sub:\n  - apiVersion: v2\n    name: sub\n    version: 0.1.0\n    created: \"2020-01-01T00:00:00Z\"\n    digest: abc\n    urls:\n    - sub-0.1.0.tgz\ngenerated: \"2020-02-02T00:00:00Z\"\n")
+		ds.Home["index.yaml"] = b.String()
+		ds.Alt["home:index.yaml"] = "apiVersion: v1\nentries:\n  legacy:\n  - name: legacy\n    version: 0.0.1\n    urls:\n    - legacy-0.0.1.tgz\n  - name: legacy\n    version: 0.0.2\n    urls: []\n  demo:\n  - name: demo\n    version: 0.9.0\n    created: \"2018-01-01T00:00:00Z\"\n    urls:\n    - demo-0.9.0.tgz\n  empty: []\n  another:\n  - name: another\n    version: 1.0.0\n    urls:\n    - https://example.com/another-1.0.0.tgz\n    - https://mirror.example.com/another-1.0.0.tgz\ngenerated: \"2018-02-02T00:00:00Z\"\nserverInfo: {}\n"
+	}
 	// ---- faults ----
 	nf := g.Weighted(1, 16, 3) // 0, 1 or 2 faults
 	var names []string
@@ -574,6 +666,9 @@ func genC20d(g *Gen, seed, index uint64) *Plan {
 	}
 	sort.Strings(names)
 	pickFile := func() string {
+		if len(ds.Home) > 0 && g.Chance(0.35) {
+			return g.Pick("home:repositories.yaml", "home:index.yaml", "home:index.yaml")
+		}
 		switch g.Weighted(30, 12, 10, 8, 12, 10, 5, 8, 5) {
 		case 0:
 			return "Chart.yaml"
@@ -622,6 +717,9 @@ func genC20d(g *Gen, seed, index uint64) *Plan {
 		content := f[df.File]
 		if df.File == "plugin.yaml" {
 			content = ds.Plugin
+		}
+		if strings.HasPrefix(df.File, "home:") {
+			content = ds.Home[strings.TrimPrefix(df.File, "home:")]
 		}
 		df.Kind = []string{"truncate", "bitflip", "zero-block", "torn", "dup-block", "empty", "missing"}[g.Weighted(10, 4, 2, 4, 2, 1, 1)]
 		if df.Kind == "torn" {
